@@ -47,6 +47,40 @@ def flatten(v, conds=()):
     return [(frozenset(conds), v)]
 
 
+def atoms(cset):
+    """Split a path's condition set into literals: a refuted disjunction contributes each disjunct refuted, an established conjunction each conjunct
+    established (De Morgan), recursively — so `if a || b {return}` and `if a {return} if b {return}` leave the same literals behind."""
+    out = set()
+
+    def add(k, pol):
+        a, p = norm_cond(("if", k))
+        p = p if pol else not p
+        if isinstance(a, tuple) and a[:2] == ("sym", "or") and not p:
+            for d in a[2:]:
+                add(d, False)
+        elif isinstance(a, tuple) and a[:2] == ("sym", "and") and p:
+            for d in a[2:]:
+                add(d, True)
+        else:
+            out.add((a, p))
+    for a, p in cset:
+        add(a, p)
+    return frozenset(out)
+
+
+def may_establish(cset, lit):
+    """Does the path establish `lit` directly, or establish a disjunction one of whose disjuncts is `lit` (an `if a || b { return Err }` path)?"""
+    if lit in atoms(cset):
+        return True
+    for a, p in cset:
+        k, pp = norm_cond(("if", a))
+        pp = pp if p else not pp
+        if isinstance(k, tuple) and k[:2] == ("sym", "or") and pp:
+            if any(lit in atoms({(d, True)}) for d in k[2:]):
+                return True
+    return False
+
+
 def path_set(v):
     return {(c, cel.vkey(x)) for c, x in flatten(v)}
 
